@@ -5,7 +5,7 @@
 ID=$1; P=${2:-${ID%%_*}}; TIER=${3:-quick}
 WT=/tmp/seedrun/$ID
 rm -rf $WT; git -C /repo worktree prune; git -C /repo worktree add -f $WT HEAD >/dev/null 2>&1 || exit 2
-git -C $WT apply /verif/seeded/$ID/patch.diff || { echo "$ID: patch does not apply"; exit 2; }
+cp /repo/Cargo.lock $WT/ 2>/dev/null; git -C $WT apply /verif/seeded/$ID/patch.diff || { echo "$ID: patch does not apply"; exit 2; }
 cd /verif
 VERIF_REPO=$WT VERIF_SCRATCH=/var/tmp/gverif_seed_$ID VERIF_JOBS=${VERIF_JOBS:-8} VERIF_EVIDENCE_DIR=/var/tmp/gverif_seed_$ID/evidence VERIF_REPLAY_DIR=/var/tmp/gverif_seed_$ID/replays \
   python3 vlib/check.py $P --tier $TIER > /var/tmp/gv/seed_$ID.log 2>&1
